@@ -169,9 +169,14 @@ class RawBinaryReader:
     def _skip(self, n: int = 1) -> None:
         self._file.seek(4 * n, 1)
 
+    def _expect(self, flag: int, message: str) -> None:
+        # not an `assert`: the word has to be consumed under `python -O` as well
+        if self._read() != flag:
+            raise AssertionError(message)
+
     def _preprocess_file(self):
         # file header
-        assert self._read() == BesFlag.FILE_START, "Invalid start flag"
+        self._expect(BesFlag.FILE_START, "Invalid start flag")
         self._skip()
 
         self.file_version = self._read()
@@ -181,7 +186,7 @@ class RawBinaryReader:
         self._skip(2)
 
         # file name
-        assert self._read() == BesFlag.FILE_NAME, "Invalid file name flag"
+        self._expect(BesFlag.FILE_NAME, "Invalid file name flag")
 
         nchar_name = self._read()
         nbytes_name = np.ceil(nchar_name / 4).astype(int)
@@ -192,7 +197,7 @@ class RawBinaryReader:
         self.file_tag = self._file.read(nbytes_tag * 4).decode("utf-8").strip()
 
         # run parameters
-        assert self._read() == BesFlag.RUN_PARAMS, "Invalid run params flag"
+        self._expect(BesFlag.RUN_PARAMS, "Invalid run params flag")
         self._skip()
 
         self.run_number = self._read()
@@ -212,11 +217,11 @@ class RawBinaryReader:
 
         # read file tail
         self._file.seek(-10 * 4, 2)
-        assert self._read() == BesFlag.FILE_TAIL_START, "Invalid file tail start flag"
+        self._expect(BesFlag.FILE_TAIL_START, "Invalid file tail start flag")
         self._skip(3)
         self.entries = self._read()
         self._skip(4)
-        assert self._read() == BesFlag.FILE_END, "Invalid file end flag"
+        self._expect(BesFlag.FILE_END, "Invalid file end flag")
 
         self._reset_cursor()
 
@@ -251,7 +256,7 @@ class RawBinaryReader:
                 assert self._file.tell() == self.data_end, "Invalid data end"
                 break
 
-            assert self._read() == BesFlag.DATA_SEPERATOR, "Invalid data seperator flag"
+            self._expect(BesFlag.DATA_SEPERATOR, "Invalid data seperator flag")
             self._skip(2)
             block_size = self._read()
             self._skip(block_size // 4)
